@@ -3,7 +3,7 @@ import os, re, struct, subprocess, tempfile, shutil
 import sympy as sp
 from sympy import Symbol, Function, S, Rational
 from ..ir import (AnalysisBroken, Undecided, show, strip, strip_casts, walk_stmts, stmt_exprs, walk_expr, calls,
-                  all_exprs, local_decls, make_generated)
+                  all_exprs, local_decls, make_generated, loop_container)
 from ..symx import Symx, State, Arr, is_zero
 
 L = 'libphysica::'
@@ -479,10 +479,13 @@ def io(prog, ctx):
             okf = len(pb) == 1 and len(tab) == 1
             if okf:
                 row = show(pb[0]['args'][0]).replace(' ', '')
-                rf = [s for s in walk_stmts(f.body) if s['k'] == 'RangeFor']
-                xv = rf[0]['var']['name'] if rf else 'x'
-                okf = ('{%s,%s(%s)}' % (xv, ps[1], xv)) in row and [show(strip_casts(a)).replace(' ', '') for a in tab[0]['args']] == [ps[0], 'data', ps[3], ps[4]] \
-                    and show(rf[0]['range']) == ps[2]
+                rf = [(s, loop_container(s)) for s in walk_stmts(f.body) if s['k'] == 'For' and loop_container(s) is not None]
+                okf = len(rf) == 1
+                if okf:
+                    xv = '%s[%s]' % (show(rf[0][1][0]), rf[0][1][1])
+                    data = show(pb[0]['obj']).replace(' ', '')
+                    okf = ('{%s,%s(%s)}' % (xv, ps[1], xv)) in row and [show(strip_casts(a)).replace(' ', '') for a in tab[0]['args']] == [ps[0], data, ps[3], ps[4]] \
+                        and show(rf[0][1][0]) == ps[2]
             ctx.decide(R, 'Export_Function(list)', f, okf, 'Export_Table of the rows {x, f(x)} for every x of the list', 'Export_Function(list) not recognised')
         else:
             dl = [c for c in calls(f) if (c.get('callee') or {}).get('q') == L + 'Export_Function']
